@@ -27,7 +27,7 @@ ASSUMPTIONS = ['cells whose arg-max margin along their path is below 1e-9 (ties,
 
 def gen(rng, tier, idx):
     wp = world.draw_world_params(rng)
-    wp['n_query'] = rng.choice([2, 3, 5, 8, 12, 20])
+    wp['n_query'] = rng.choice([2, 3, 5, 8, 12, 20, 40])
     W = world.make_world(wp)
     a = common.draw_mapping_cfg(rng, W, bootstrap_factor=1.0)
     a['min_markers'] = max(1, a['min_markers'])
